@@ -1,6 +1,7 @@
 package eng
 
 import (
+	"encoding/hex"
 	"errors"
 	"fmt"
 	"strconv"
@@ -30,6 +31,7 @@ type SynthEvent struct {
 	MarkIn  []byte `json:"mark_in"`  // marker option of the response received
 	MarkOut []byte `json:"mark_out"` // marker option of the response returned
 	ReqXid  string `json:"req_xid"`
+	ReqHex  string `json:"req_hex,omitempty"` // serialisation of the request object the handler received
 }
 
 type synthRecorder struct {
@@ -75,7 +77,7 @@ func registerSynth(_ []SynthPlugin, rec *synthRecorder) {
 		behav := args[0]
 		id, _ := strconv.Atoi(args[1])
 		return func(req, resp *dhcpv4.DHCPv4) (*dhcpv4.DHCPv4, bool) {
-			e := SynthEvent{ID: id, Behav: behav, Req: fmt.Sprintf("%p", req), RespIn: fmt.Sprintf("%p", resp), MarkIn: mark4(resp), ReqXid: req.TransactionID.String()}
+			e := SynthEvent{ID: id, Behav: behav, Req: fmt.Sprintf("%p", req), RespIn: fmt.Sprintf("%p", resp), MarkIn: mark4(resp), ReqXid: req.TransactionID.String(), ReqHex: hex.EncodeToString(req.ToBytes())}
 			out, stop := resp, false
 			switch behav {
 			case "modify":
@@ -126,7 +128,7 @@ func registerSynth(_ []SynthPlugin, rec *synthRecorder) {
 		behav := args[0]
 		id, _ := strconv.Atoi(args[1])
 		return func(req, resp dhcpv6.DHCPv6) (dhcpv6.DHCPv6, bool) {
-			e := SynthEvent{ID: id, Behav: behav, Req: fmt.Sprintf("%p", req), RespIn: fmt.Sprintf("%p", resp), MarkIn: mark6(resp)}
+			e := SynthEvent{ID: id, Behav: behav, Req: fmt.Sprintf("%p", req), RespIn: fmt.Sprintf("%p", resp), MarkIn: mark6(resp), ReqHex: hex.EncodeToString(req.ToBytes())}
 			out, stop := resp, false
 			add := func(r dhcpv6.DHCPv6, v []byte) {
 				r.UpdateOption(&dhcpv6.OptionGeneric{OptionCode: dhcpv6.OptionCode(synthOpt6), OptionData: v})
